@@ -515,7 +515,7 @@ func (c *leafCtx) expr(e ast.Expr, want string) (string, string) {
 			if strings.HasPrefix(t, "S_") {
 				for _, f := range c.structs[strings.TrimPrefix(t, "S_")] {
 					if f[0] == x.Sel.Name {
-						return recv + "." + f[0], f[1]
+						return recv + "." + lf(f[0]), f[1]
 					}
 				}
 			}
@@ -1602,7 +1602,7 @@ func emitLeaves(repo string, parsed map[string][]*ast.File, fset *token.FileSet,
 			ds.structFile[n] = "Leaf"
 			fmt.Fprintf(&sb, "structure S_%s where\n", n)
 			for _, f := range structs[n] {
-				fmt.Fprintf(&sb, "  %s : %s\n", f[0], leanTypeName(f[1]))
+				fmt.Fprintf(&sb, "  %s : %s\n", lf(f[0]), leanTypeName(f[1]))
 			}
 			sb.WriteString("\n")
 		}
